@@ -90,8 +90,23 @@ impl Actor for Watcher {
     }
 }
 
+/// message type of a `DerivedActorRef` onto the target (its own copies of send_after / send_interval)
+struct DMsg(u32, u32);
+impl From<DMsg> for (u32, u32) {
+    fn from(d: DMsg) -> Self {
+        (d.0, d.1)
+    }
+}
+impl TryFrom<(u32, u32)> for DMsg {
+    type Error = ();
+    fn try_from(m: (u32, u32)) -> Result<Self, ()> {
+        Ok(DMsg(m.0, m.1))
+    }
+}
+
 enum Handle {
     Send(JoinHandle<Result<(), MessagingErr<(u32, u32)>>>),
+    SendD(JoinHandle<Result<(), MessagingErr<DMsg>>>),
     Unit(JoinHandle<()>),
 }
 
@@ -104,6 +119,9 @@ struct TimerRec {
 enum Op {
     Sa(u64),
     Si(u64),
+    /// the same through a `DerivedActorRef`
+    Dsa(u64),
+    Dsi(u64),
     Ea(u64),
     Ka(u64),
     Adv(u64),
@@ -122,6 +140,8 @@ impl Op {
         match self {
             Op::Sa(p) => format!("sa {p}"),
             Op::Si(p) => format!("si {p}"),
+            Op::Dsa(p) => format!("dsa {p}"),
+            Op::Dsi(p) => format!("dsi {p}"),
             Op::Ea(p) => format!("ea {p}"),
             Op::Ka(p) => format!("ka {p}"),
             Op::Adv(d) => format!("adv {d}"),
@@ -141,6 +161,8 @@ impl Op {
         Some(match *w.first()? {
             "sa" => Op::Sa(n(1)?),
             "si" => Op::Si(n(1)?),
+            "dsa" => Op::Dsa(n(1)?),
+            "dsi" => Op::Dsi(n(1)?),
             "ea" => Op::Ea(n(1)?),
             "ka" => Op::Ka(n(1)?),
             "adv" => Op::Adv(n(1)?),
@@ -217,6 +239,28 @@ async fn run_case(ops: &[Op]) -> Vec<String> {
                 });
                 timers.push(TimerRec { h: Handle::Unit(h), res: None });
             }
+            Op::Dsa(p) => {
+                let id = timers.len() as u32;
+                let (s2, t) = (sh.clone(), t0);
+                let d = target.get_derived::<DMsg>();
+                let h = d.send_after(ms(*p), move || {
+                    s2.lock().unwrap().attempts.push((id, 1, now_ms(t)));
+                    DMsg(id, 1)
+                });
+                timers.push(TimerRec { h: Handle::SendD(h), res: None });
+            }
+            Op::Dsi(p) => {
+                let id = timers.len() as u32;
+                let (s2, t) = (sh.clone(), t0);
+                let k = AtomicU32::new(0);
+                let d = target.get_derived::<DMsg>();
+                let h = d.send_interval(ms(*p), move || {
+                    let kk = k.fetch_add(1, Ordering::SeqCst) + 1;
+                    s2.lock().unwrap().attempts.push((id, kk, now_ms(t)));
+                    DMsg(id, kk)
+                });
+                timers.push(TimerRec { h: Handle::Unit(h), res: None });
+            }
             Op::Ea(p) => timers.push(TimerRec { h: Handle::Unit(target.exit_after(ms(*p))), res: None }),
             Op::Ka(p) => timers.push(TimerRec { h: Handle::Unit(target.kill_after(ms(*p))), res: None }),
             Op::Adv(d) => tokio::time::advance(ms(*d)).await,
@@ -225,6 +269,7 @@ async fn run_case(ops: &[Op]) -> Vec<String> {
                 if let Some(t) = timers.get(*i) {
                     match &t.h {
                         Handle::Send(h) => h.abort(),
+                        Handle::SendD(h) => h.abort(),
                         Handle::Unit(h) => h.abort(),
                     }
                 }
@@ -245,6 +290,7 @@ async fn run_case(ops: &[Op]) -> Vec<String> {
                 if let Some(t) = timers.get(*i) {
                     match &t.h {
                         Handle::Send(h) => h.abort(),
+                        Handle::SendD(h) => h.abort(),
                         Handle::Unit(h) => h.abort(),
                     }
                 }
@@ -263,6 +309,7 @@ async fn run_case(ops: &[Op]) -> Vec<String> {
             }
             let fin = match &t.h {
                 Handle::Send(h) => h.is_finished(),
+                Handle::SendD(h) => h.is_finished(),
                 Handle::Unit(h) => h.is_finished(),
             };
             if !fin {
@@ -270,6 +317,14 @@ async fn run_case(ops: &[Op]) -> Vec<String> {
             }
             let r = match &mut t.h {
                 Handle::Send(h) => match h.await {
+                    Ok(Ok(())) => "ok".to_string(),
+                    Ok(Err(MessagingErr::SendErr(_))) => "err".to_string(),
+                    Ok(Err(MessagingErr::ChannelClosed)) => "err:ChannelClosed".to_string(),
+                    Ok(Err(MessagingErr::InvalidActorType)) => "err:InvalidActorType".to_string(),
+                    Err(e) if e.is_cancelled() => "cancelled".to_string(),
+                    Err(_) => "panic".to_string(),
+                },
+                Handle::SendD(h) => match h.await {
                     Ok(Ok(())) => "ok".to_string(),
                     Ok(Err(MessagingErr::SendErr(_))) => "err".to_string(),
                     Ok(Err(MessagingErr::ChannelClosed)) => "err:ChannelClosed".to_string(),
@@ -308,6 +363,7 @@ async fn run_case(ops: &[Op]) -> Vec<String> {
     for t in &timers {
         match &t.h {
             Handle::Send(h) => h.abort(),
+            Handle::SendD(h) => h.abort(),
             Handle::Unit(h) => h.abort(),
         }
     }
@@ -331,10 +387,14 @@ fn gen_case(rng: &mut Rng, st: &mut Stats) -> Vec<Op> {
         let op = if r < 34 || n_timers == 0 {
             let k = rng.below(100);
             n_timers += 1;
-            if k < 35 {
+            if k < 27 {
                 Op::Sa(*rng.pick(&per))
-            } else if k < 70 {
+            } else if k < 35 {
+                Op::Dsa(*rng.pick(&per))
+            } else if k < 62 {
                 Op::Si(*rng.pick(&iper))
+            } else if k < 70 {
+                Op::Dsi(*rng.pick(&iper))
             } else if k < 85 && !have_exit_after {
                 // at most one exit_after per case: which of two simultaneous stop requests
                 // wins depends on tokio's wheel order, which the model does not describe
@@ -409,6 +469,8 @@ fn fixed_cases() -> Vec<Vec<Op>> {
         vec![Ka(2), AdvAbort(2, 0), Adv(5)],
         vec![Ka(2), Stop, Adv(2)],
         vec![Sa(1), Sa(1), Si(1), Si(1), Adv(1), Adv(1), Kill, Adv(1)],
+        vec![Dsa(5), Dsi(3), Adv(3), Adv(2), AdvAbort(1, 1), Kill, Adv(4)],
+        vec![Dsi(2), Adv(7), Stop, Adv(2), Dsa(0), Dsi(1), Adv(3)],
     ]
 }
 
